@@ -789,7 +789,7 @@ static void vh_op(int argc, char **argv)
 		sprintf(st, "%c%c", cell(g_alog.channel.write_mutex), cell(g_alog.channel.blocks)); line("void", st); return;
 	}
 	if (IS("alog.destroy")) {
-		NEED(s_alog);
+		NEED_INITED(s_alog);
 		ENTER(); muggle_async_logger_destroy((muggle_logger_t *)&g_alog); LEAVE(); s_alog = S_DESTROYED;
 		sprintf(st, "%c%c", cell(g_alog.channel.write_mutex), cell(g_alog.channel.blocks)); line("void", st); return;
 	}
